@@ -317,9 +317,19 @@ func auxValues(r *rand.Rand, seed int64, n int, emit func(E), stats map[string]i
 
 func auxSatisfy(r *rand.Rand, seed int64, n int, emit func(E), stats map[string]int) {
 	p := &Profile{Name: "satisfy", NumTable: "general", TimeTable: "general", Colls: 1, MaxDocs: 8, Rich: seed%2 == 0, W: weights(nil)}
-	g := NewGen(seed, p)
-	x := &Exec{U: g.U}
+	g0 := NewGen(seed, p)
+	x0 := &Exec{U: g0.U}
+	// integers up to the ends of int64 and uint64 (neighbours that one float64 cannot tell apart): every other
+	// long membership list is drawn from them, documents included
+	px := *p
+	px.NumTable = "extremes"
+	gx := NewGen(seed+7777, &px)
+	xx := &Exec{U: gx.U}
 	for i := 0; i < n; i++ {
+		g, x := g0, x0
+		if i%16 == 5 {
+			g, x = gx, xx
+		}
 		var docs []V
 		for k := 0; k < 4; k++ {
 			docs = append(docs, g.doc(AStr(g.ids[k])))
@@ -343,6 +353,36 @@ func auxSatisfy(r *rand.Rand, seed int64, n int, emit func(E), stats map[string]
 					}
 					break
 				}
+			}
+		}
+		if i%8 == 5 {
+			// long membership lists (an implementation may treat them differently from short ones): 16 to 40
+			// numbers in every representation, with or without the value one of the documents holds
+			f := g.pick([]string{"x", "xy"})
+			var own V
+			for _, d := range docs {
+				if v, ok := ObjGet(d, f); ok && v[0] == "num" {
+					own = v
+					break
+				}
+			}
+			with := g.chance(0.4)
+			list := make([]interface{}, 0)
+			for len(list) < 16+g.r.Intn(25) {
+				ord := g.r.Intn(len(g.U.nums))
+				if own != nil && !with && ord == toInt(own[1]) {
+					continue
+				}
+				reps := g.U.Reps(ord)
+				list = append(list, []interface{}{"lit", ANum(ord, reps[g.r.Intn(len(reps))])})
+			}
+			if own != nil && with {
+				reps := g.U.Reps(toInt(own[1]))
+				list[g.r.Intn(len(list))] = []interface{}{"lit", ANum(toInt(own[1]), reps[g.r.Intn(len(reps))])}
+			}
+			c = []interface{}{"un", "in", B(f), []interface{}{"list", list}}
+			if g.chance(0.3) {
+				c = []interface{}{"not", c}
 			}
 		}
 		for _, d := range docs {
